@@ -3,13 +3,17 @@ module verif
 go 1.23
 
 require (
+	github.com/goplus/gogen v1.18.1
+	github.com/goplus/mod v0.17.0
 	github.com/goplus/xgo v0.0.0
+	github.com/qiniu/x v1.15.0
 	pgregory.net/rapid v1.3.0
 )
 
 require (
-	github.com/goplus/gogen v1.18.1 // indirect
-	github.com/qiniu/x v1.15.0 // indirect
+	github.com/fsnotify/fsnotify v1.9.0 // indirect
+	golang.org/x/mod v0.20.0 // indirect
+	golang.org/x/sys v0.21.0 // indirect
 )
 
 replace github.com/goplus/xgo => /repo
